@@ -93,3 +93,42 @@ def main(argv):
         json.dump(results, f, indent=1)
     print("sensitivity: %d entries, %d unexpected outcomes; details in %s" % (len(entries), bad, out))
     return 1 if bad else 0
+
+
+def seeded_main(argv):
+    """Every independently written breaking change under /verif/seeded must be reported by the check of the property it
+    breaks (quick tier).  ./check selftest seeded [--only id]"""
+    only = argv[argv.index("--only") + 1] if "--only" in argv else None
+    base = os.environ.get("TMPDIR") or ("/dev/shm" if os.path.isdir("/dev/shm") else "/tmp")
+    root = os.path.join(VERIF, "seeded")
+    bad = 0
+    rows = []
+    for name in sorted(os.listdir(root)):
+        if only and only not in name:
+            continue
+        meta = json.load(open(os.path.join(root, name, "meta.json")))
+        prop = meta["breaks_property"]
+        scratch = tempfile.mkdtemp(prefix="verif-seed-", dir=base)
+        t0 = time.time()
+        try:
+            shutil.copytree(os.path.join(REPO, "src"), os.path.join(scratch, "src"))
+            p = subprocess.run(["patch", "-s", "-p1", "-d", scratch, "-i", os.path.join(root, name, "patch.diff")], capture_output=True, text=True)
+            if p.returncode != 0:
+                print("seed %s: patch does not apply to the current tree: %s" % (name, (p.stdout + p.stderr)[-200:]))
+                bad += 1
+                continue
+            env = dict(os.environ, VERIF_SRC_ROOT=os.path.join(scratch, "src"), VERIF_EVIDENCE_DIR=os.path.join(scratch, "ev"),
+                       VERIF_REPLAY_DIR=os.path.join(scratch, "rp"))
+            c = subprocess.run([os.path.join(VERIF, "check"), prop, "--tier", "quick"], env=env, capture_output=True, text=True)
+            detail = [l.strip() for l in c.stdout.splitlines() if l.strip().startswith("oracle=")]
+            okay = c.returncode == 1 and any(l.startswith("VIOLATION") for l in c.stdout.splitlines())
+            bad += not okay
+            rows.append({"seed": name, "property": prop, "exit": c.returncode, "first": detail[0][:160] if detail else None})
+            print("seed %-5s %-4s exit=%d %s  %s  (%.0fs)" % (name, prop, c.returncode, "ok" if okay else "NOT REPORTED",
+                                                          detail[0][:110] if detail else "", time.time() - t0), flush=True)
+        finally:
+            shutil.rmtree(scratch, ignore_errors=True)
+    with open(os.path.join(VERIF, "selftest", "seeded_last.json"), "w") as f:
+        json.dump(rows, f, indent=1)
+    print("seeded: %d changes, %d not reported" % (len(rows), bad))
+    return 1 if bad else 0
